@@ -16,7 +16,7 @@ Partial aspects
 * "promptly", "at the configured interval", "after the configured back-off" are not wall-clock statements here:
   ticks and timer expiries are environment events; the harness observes the real periods with tolerance.
 -/
-import KafkaVerif.Model.GroupDeadlines
+import KafkaVerif.Model.GroupCallDeadlines
 import KafkaVerif.Lemmas.GroupInv
 import KafkaVerif.Lemmas.GroupHb
 import KafkaVerif.Lemmas.GroupHbAlive
